@@ -203,6 +203,9 @@ const lim53 = int64(1) << 53
 
 func genI64(t *rapid.T, label string, d domain) int64 {
 	if d.fullInt64 {
+		if rapid.IntRange(0, 3).Draw(t, label+"_edge") == 0 {
+			return rapid.SampledFrom([]int64{math.MinInt64, math.MaxInt64, math.MinInt64 + 1, lim53 + 1, -lim53 - 1, 1 << 62, -(1 << 62), math.MaxInt32 + 1}).Draw(t, label+"_e")
+		}
 		return rapid.Int64().Draw(t, label)
 	}
 	if rapid.IntRange(0, 7).Draw(t, label+"_edge") == 0 {
@@ -213,6 +216,9 @@ func genI64(t *rapid.T, label string, d domain) int64 {
 
 func genU64(t *rapid.T, label string, d domain) uint64 {
 	if d.fullInt64 {
+		if rapid.IntRange(0, 3).Draw(t, label+"_edge") == 0 {
+			return rapid.SampledFrom([]uint64{math.MaxUint64, math.MaxUint64 - 1, 1 << 63, 1<<63 - 1, uint64(lim53) + 1, math.MaxUint32 + 1}).Draw(t, label+"_e")
+		}
 		return rapid.Uint64().Draw(t, label)
 	}
 	if rapid.IntRange(0, 7).Draw(t, label+"_edge") == 0 {
